@@ -15,7 +15,7 @@ namespace SideVerif
 open Sql Cal
 
 /-- `table.replace("_cte", "")` -/
-def stripCte (s : String) : String := s.replace "_cte" ""
+def stripCte (s : String) : String := Str.replace s "_cte" ""
 
 /-- (qualifier, name) of a column reference as sqlglot sees it -/
 def colParts (c : String) : Option String × String :=
@@ -28,7 +28,7 @@ def applyDefaultTimeDims (m : SModel) (metrics dims : List String) : List String
   let hasTime := dims.any fun d =>
     match splitFirstDot d with
     | some (mn, part) =>
-      mn == m.name && (match m.dim? ((part.splitOn "__").headD "") with
+      mn == m.name && (match m.dim? ((beforeFirstDunder part)) with
         | some dm => dm.type == "time"
         | none => false)
     | none => false
@@ -74,7 +74,7 @@ def metricFilterCols (m : SModel) (metrics : List String) : List String :=
       if mn == m.name then
         (match m.measure? x with
          | some ms => ms.filters.flatMap fun f => f.cols.filterMap fun c =>
-             let c' := if c.startsWith "{model}." then m.name ++ "_cte." ++ (c.drop 8).toString else c
+             let c' := if Str.startsWith c "{model}." then m.name ++ "_cte." ++ Str.dropLen c 8 else c
              match colParts c' with
              | (some t, n) => if stripCte t == m.name then some n else none
              | (none, n) => some n
@@ -87,7 +87,7 @@ def neededDims (m : SModel) (parsed : List (String × Option String)) (pushdown 
     (orderBy : List (String × Bool)) (mfc : List String) : List String :=
   dedupS <|
     (parsed.filterMap fun (ref, _) =>
-      if ref.startsWith (m.name ++ ".") then (ref.splitOn ".")[1]? else none) ++
+      if Str.startsWith ref (m.name ++ ".") then (Str.splitChar '.' ref)[1]? else none) ++
     (pushdown.flatMap fun f => f.cols.filterMap fun c => match colParts c with
       | (some t, n) => if stripCte t == m.name then some n else none
       | _ => none) ++
@@ -137,8 +137,8 @@ def buildCte (m : SModel) (parsed : List (String × Option String)) (metrics : L
     else acc) items0
   -- <dim>__<gran> columns
   let items2 := parsed.foldl (fun acc (ref, gran) =>
-    if ref.startsWith (m.name ++ ".") then
-      match (ref.splitOn ".")[1]? with
+    if Str.startsWith ref (m.name ++ ".") then
+      match (Str.splitChar '.' ref)[1]? with
       | some dn =>
         (match m.dim? dn, gran with
          | some d, some gs =>
